@@ -72,8 +72,15 @@ def verify_one(job):
             lm = reg.lemmas[q[6:]]
             obs = ex.verify_lemma(lm)
             for ob in obs:
-                discharge(ob, both=opts.get("both", False), use_cvc5=opts.get("cvc5", True))
-                res["obligations"].append({"name": ob.name, "kind": ob.kind, "props": ob.props, "verdict": ob.verdict, "backend": ob.backend,
+                smt2 = None
+                if opts.get("defer"):
+                    sv = z3.Solver()
+                    sv.add(ob.hyps)
+                    sv.add(z3.Not(ob.goal))
+                    smt2 = sv.to_smt2()
+                else:
+                    discharge(ob, both=opts.get("both", False), use_cvc5=opts.get("cvc5", True))
+                res["obligations"].append({"smt2_text": smt2, "name": ob.name, "kind": ob.kind, "props": ob.props, "verdict": ob.verdict, "backend": ob.backend,
                                            "time": round(ob.time, 3), "line": None, "reason": ob.reason, "trace": []})
             res["cover"] = ex.cover
             res["wall"] = time.time() - t0
@@ -92,7 +99,13 @@ def verify_one(job):
             obs = []
         res["gen_s"] = time.time() - t0
         for ob in obs:
-            discharge(ob, both=opts.get("both", False), use_cvc5=opts.get("cvc5", True))
+            if opts.get("defer"):
+                sv = z3.Solver()
+                sv.add(ob.hyps)
+                sv.add(z3.Not(ob.goal))
+                ob.smt2 = sv.to_smt2()
+            else:
+                discharge(ob, both=opts.get("both", False), use_cvc5=opts.get("cvc5", True))
             d = {
                 "name": ob.name + (f"[{fam}]" if fam else ""),
                 "kind": ob.kind,
@@ -104,6 +117,8 @@ def verify_one(job):
                 "reason": ob.reason,
                 "trace": ob.trace,
             }
+            if opts.get("defer"):
+                d["smt2_text"] = ob.smt2
             if ob.verdict == "refuted" and ob.model is not None:
                 d["model"] = model_summary(ob.model)
             if ob.verdict != "discharged" and opts.get("dump"):
@@ -159,13 +174,25 @@ def run(props=None, only=None, both=False, cvc5=True, dump=False, repo_root=None
             if tags & set(props):
                 keep.append((q, fam))
         tg = keep
-    jobs = [(q, fam, {"both": both, "cvc5": cvc5, "dump": dump, "repo": repo_root}) for q, fam in tg]
-    procs = procs or min(16, max(1, len(jobs)))
-    if procs == 1 or len(jobs) <= 1:
-        return [verify_one(j) for j in jobs]
+    jobs = [(q, fam, {"both": both, "cvc5": cvc5, "dump": dump, "repo": repo_root, "defer": True}) for q, fam in tg]
+    procs = procs or 16
     ctx = mp.get_context("fork")
-    with ctx.Pool(procs, maxtasksperchild=4) as pool:
-        return pool.map(verify_one, jobs, chunksize=1)
+    from .smt import discharge_text
+
+    with ctx.Pool(procs, maxtasksperchild=8) as pool:
+        # phase 1: VC generation per function; phase 2: every obligation is its own task (fine-grained parallelism)
+        results = pool.map(verify_one, jobs, chunksize=1) if jobs else []
+        tasks = []
+        for ri, r in enumerate(results):
+            for oi, o in enumerate(r["obligations"]):
+                if o.get("smt2_text"):
+                    tasks.append((ri, oi, o.pop("smt2_text")))
+        # longest formulas first
+        tasks.sort(key=lambda t: -len(t[2]))
+        outs = pool.map(discharge_text, [(t[2], both, cvc5) for t in tasks], chunksize=1) if tasks else []
+    for (ri, oi, _), d in zip(tasks, outs):
+        results[ri]["obligations"][oi].update(d)
+    return results
 
 
 if __name__ == "__main__":
